@@ -71,12 +71,33 @@ theorem getTopicChan_guards :
       ["if len(params) == 0", "if len(params) >= 2", "if !protocol.IsValidTopicName(topicName)",
        "if channelName != \"\" && !protocol.IsValidChannelName(channelName)"] := by decide
 
-theorem register_shape :
+/-- REGISTER as in the tree: `AddProducer(channel key)`, then `AddProducer(topic key)` — two
+critical sections (`regStep1`, `regStep2`; finding `race:register-vs-topic-delete`) … -/
+def registerShapeTwoSections : Prop :=
     Lookupd.registerGuards =
       ["if client.peerInfo == nil", "if channel != \"\"",
        "assign key := Registration{\"channel\", topic, channel}",
        "assign key := Registration{\"topic\", topic, \"\"}"] ∧
-    Lookupd.callsRegister = ["getTopicChan", "AddProducer", "AddProducer"] := by decide
+    Lookupd.callsRegister = ["getTopicChan", "AddProducer", "AddProducer"] ∧
+    Lookupd.registerProducerStmts = [] ∧ Lookupd.callsRegisterProducer = []
+
+/-- … or with the proposed fix F18 (`RegistrationDB.RegisterProducer`: channel key, then topic key
+under ONE `Lock()`/`Unlock()`). Both have the sequential behaviour of `registerDB`. -/
+def registerShapeAtomic : Prop :=
+    Lookupd.registerGuards =
+      ["if client.peerInfo == nil",
+       "assign addedChannel, addedTopic := p.nsqlookupd.DB.RegisterProducer(topic, channel, client.peerInfo)"] ∧
+    Lookupd.callsRegister = ["getTopicChan", "RegisterProducer"] ∧
+    Lookupd.registerProducerStmts =
+      ["if channel != \"\"",
+       "assign addedChannel = add(Registration{\"channel\", topic, channel})",
+       "return return addedChannel, add(Registration{\"topic\", topic, \"\"})"] ∧
+    Lookupd.callsRegisterProducer = ["Lock", "Unlock", "add", "add"]
+
+instance : Decidable registerShapeTwoSections := by unfold registerShapeTwoSections; infer_instance
+instance : Decidable registerShapeAtomic := by unfold registerShapeAtomic; infer_instance
+
+theorem register_shape : registerShapeTwoSections ∨ registerShapeAtomic := by decide
 
 /-- UNREGISTER as in the tree (RemoveProducer, then RemoveRegistration when `left == 0` and the
 name is ephemeral: two critical sections) … -/
@@ -157,11 +178,40 @@ theorem tombstone_shape :
 
 theorem admin_calls :
     Lookupd.callsCreateTopic = ["NewReqParams", "Get", "IsValidTopicName", "AddRegistration"] ∧
+    Lookupd.callsDeleteChannel =
+      ["NewReqParams", "GetTopicChannelArgs", "FindRegistrations", "RemoveRegistration"] := by decide
+
+/-- `/topic/delete` and `/channel/create` as in the tree: several critical sections each
+(`delTopicStep1/2`; `AddRegistration` twice) … -/
+def adminShapeSections : Prop :=
     Lookupd.callsDeleteTopic =
       ["NewReqParams", "Get", "FindRegistrations", "RemoveRegistration", "FindRegistrations", "RemoveRegistration"] ∧
     Lookupd.callsCreateChannel = ["NewReqParams", "GetTopicChannelArgs", "AddRegistration", "AddRegistration"] ∧
-    Lookupd.callsDeleteChannel =
-      ["NewReqParams", "GetTopicChannelArgs", "FindRegistrations", "RemoveRegistration"] := by decide
+    Lookupd.removeTopicStmts = [] ∧ Lookupd.callsRemoveTopic = [] ∧
+    Lookupd.addTopicChannelStmts = [] ∧ Lookupd.callsAddTopicChannel = []
+
+/-- … or with the proposed fix F18: `RemoveTopic` (the channel keys matching `(topic, *)` and the
+topic key deleted under one lock) and `AddTopicChannel` (channel key, then topic key under one
+lock). Both have the sequential behaviour of `deleteTopicDB` / `createChannel`. -/
+def adminShapeAtomic : Prop :=
+    Lookupd.callsDeleteTopic = ["NewReqParams", "Get", "RemoveTopic"] ∧
+    Lookupd.callsCreateChannel = ["NewReqParams", "GetTopicChannelArgs", "AddTopicChannel"] ∧
+    Lookupd.removeTopicStmts =
+      ["if k.IsMatch(\"channel\", topic, \"*\")", "if k.IsMatch(\"topic\", topic, \"\")"] ∧
+    Lookupd.callsRemoveTopic = ["Lock", "Unlock", "IsMatch", "IsMatch", "delete", "delete"] ∧
+    Lookupd.addTopicChannelStmts =
+      ["assign channelKey := Registration{\"channel\", topic, channel}",
+       "assign _, ok := r.registrationMap[channelKey]",
+       "assign r.registrationMap[channelKey] = make(map[string]*Producer)",
+       "assign topicKey := Registration{\"topic\", topic, \"\"}",
+       "assign _, ok := r.registrationMap[topicKey]",
+       "assign r.registrationMap[topicKey] = make(map[string]*Producer)"] ∧
+    Lookupd.callsAddTopicChannel = ["Lock", "Unlock", "make", "make"]
+
+instance : Decidable adminShapeSections := by unfold adminShapeSections; infer_instance
+instance : Decidable adminShapeAtomic := by unfold adminShapeAtomic; infer_instance
+
+theorem admin_topic_shape : adminShapeSections ∨ adminShapeAtomic := by decide
 
 theorem topicChannelArgs_shape :
     Lookupd.topicChannelArgs =
@@ -173,6 +223,14 @@ theorem topicChannelArgs_shape :
        "return return \"\", \"\", errors.New(\"MISSING_ARG_CHANNEL\")",
        "if !protocol.IsValidChannelName(channelName)",
        "return return \"\", \"\", errors.New(\"INVALID_ARG_CHANNEL\")"] := by decide
+
+/-- `/ping` returns the string "OK" (= `pingBody`), `/info` a document whose only member is `version`
+(= `infoKeys`); both ignore the request and the registry -/
+theorem ping_info_shape :
+    Lookupd.pingStmts = ["return return \"OK\", nil"] ∧
+    Lookupd.infoStmts =
+      ["return return struct { Version string `json:\"version\"` }{ Version: version.Binary, }, nil"] ∧
+    "OK".toList.map (·.toNat) = pingBody.map (·.toNat) ∧ infoKeys = ["version"] := by decide
 
 /-- names: the regular expression and the length bounds `validName` implements -/
 theorem names :
